@@ -399,6 +399,26 @@ def parse_assumptions(ctx: Ctx, log: str, props_v: str):
                 ctx.proof_broken = 'theorem %s depends on non-stdlib axiom %s' % (name, a)
 
 
+def coqchk(ctx: Ctx):
+    """thorough tier: independent re-check of Props.vo and everything it depends on."""
+    import glob
+    dirs = sorted({os.path.basename(os.path.dirname(p)) for p in glob.glob(os.path.join(COQ, 'C[0-9]*', '*.v'))})
+    cmd = ['coqchk', '-silent', '-o', '-Q', 'lib', 'Falcon.lib', '-Q', 'gen', 'Falcon.gen']
+    for d in dirs:
+        cmd += ['-Q', d, 'Falcon.' + d]
+    cmd.append('Falcon.%s.Props' % ctx.prop)
+    code, out = _run(cmd, cwd=COQ, timeout=3000)
+    summary = out[out.find('CONTEXT SUMMARY'):] if 'CONTEXT SUMMARY' in out else out[-1500:]
+    ctx.cov['coqchk'] = {'cmd': ' '.join(cmd), 'exit': code, 'summary': summary.strip()[:3000]}
+    if code != 0:
+        ctx.proof_broken = (ctx.proof_broken or '') + '\ncoqchk failed: ' + out[-1500:]
+    else:
+        bad = [k for k in ('type-in-type', 'unsafe (co)fixpoints', 'positivity is assumed')
+               if not re.search(re.escape(k) + r':\s*<none>', summary)]
+        if bad:
+            ctx.proof_broken = (ctx.proof_broken or '') + '\ncoqchk reports: ' + ', '.join(bad)
+
+
 # --------------------------------------------------------------------------- model driver
 
 
